@@ -346,6 +346,8 @@ pub fn write_float_nonscientific<const FORMAT: u128>(
     }
 
     // Determine if we need to add more trailing zeros.
+    // If every digit kept was a zero, trimming them left fewer digits than leading zeros.
+    let leading_zeros = leading_zeros.min(digit_count.saturating_sub(1));
     let exact_count = shared::min_exact_digits(digit_count - leading_zeros, options) + leading_zeros;
 
     // Write any trailing digits to the output.
